@@ -15,6 +15,7 @@ import DateutilVerif.Proofs.RRuleStrOrder
 import DateutilVerif.Proofs.RRuleStrSet
 import DateutilVerif.Proofs.RRuleStrSpell
 import DateutilVerif.Proofs.RRuleStrOpts
+import DateutilVerif.Proofs.RRuleStrRule
 
 namespace C13
 open RRuleStr
@@ -97,9 +98,14 @@ example : parseRfc (lit "INTERVAL=2") {} = .error .ValueError := by decide      
 
 /-! ## 3. letter case -/
 
-/-- the text is upper-cased as a whole before anything else: the case of the input is irrelevant.
-    (Honest note: this includes the UNTIL / DTSTART / RDATE / EXDATE date texts and TZID names, which reach
-    `parser.parse` upper-cased; TZID names are mapped back through `TZID_NAMES`, outside this model.) -/
+/-- the text is upper-cased as a whole before anything else: for everything `parseRfc` returns — the RRULE / EXRULE parts,
+    the property names, the parameters and the date texts — the letter case of the input is irrelevant.
+    Scope, honestly: this covers the RRULE parts and the line dispatch ONLY.  (1) The UNTIL / DTSTART / RDATE / EXDATE date
+    texts and TZID parameter values reach `parser.parse` / the parameter loop upper-cased.  (2) The zone NAME handed to the
+    `tzids` lookup is NOT part of `parseRfc`'s result: it is `tzidOf text opts parms` (`Model/RRuleStr.lean`), taken from the
+    text AS WRITTEN through the case-insensitive name table, so `dtstart;tzid=Foo/Bar:` looks up `Foo/Bar` while the
+    upper-cased text looks up `FOO/BAR` — the same name only up to letter case.  No theorem is stated about `tzidOf`; it is
+    tied to `TZID_NAMES` / `_parse_date_value` by the correspondence (every spelling, folded too) and by the oracle. -/
 theorem case_irrelevant (s : List Char) (o : Opts) (kw : Bool) : parseRfc (upper s) o kw = parseRfc s o kw := by
   unfold parseRfc; rw [upper_idem]
 
@@ -200,6 +206,19 @@ theorem empty_by_list_is_lost (x : StrIn) (h : x.orig.bymonthday = some []) :
   constructor
   · simp [argsOf, normL, h]
   · rw [h]; simp
+
+/-- **the printed arguments lead back to the rule** (C13 ∘ C01): for a rule `r = rrule(**a)`, `rrulestr(str(r))` hands the
+    constructor arguments that build exactly `r` again, hence the same occurrences.  All hypotheses are explicit; the
+    first is the class of the known finding D-C13-empty-by-list (there the statement is false on the real code), and the
+    date values are taken over unchanged (`backArgs`): that `parser.parse` reads the compact text back is C02, tied here
+    by the correspondence and the oracle only. -/
+theorem str_roundtrip_rule (a : RRule.Args) (r : RRule.Rule) (h : RRule.construct a = .ok r) (hsp : a.bysetpos ≠ some [])
+    (hne : NoEmptyBy (RRule.origArgs a r)) (hpr : Printable (strInOf (RRule.origArgs a r)))
+    (hf : 0 ≤ (RRule.origArgs a r).freq)
+    (o : Opts) (hu : o.unfold = false) (hfs : o.forceset = false) (hc : o.compatible = false) (kw : Bool) :
+    ∃ pa dt, parseRfc (toStr (strInOf (RRule.origArgs a r))) o kw = .ok (.rule pa (some dt) o.cache) ∧
+      RRule.construct (backArgs (RRule.origArgs a r) pa) = .ok r :=
+  parse_toStr_constructs_same_rule a r h hsp hne hpr hf o hu hfs hc kw
 
 /-- a rule with most things in it: nth weekdays of both signs, negative list members, WKST, INTERVAL, UNTIL, year < 1000 -/
 def sample : StrIn :=
